@@ -86,10 +86,29 @@ def x_none(engine, st, args, node, kw):
 
 
 def x_sliceinfo(engine, st, args, node, kw):
+    """SliceInfo(inner, ind, size, project): an opaque record with those attributes"""
     r = engine.fresh(st, "sliceinfo", node, Ty.IntS)
-    ind_of = _uf("si_ind")
-    st.assume(ind_of(engine, st, [V(Key, [r])], node, {}).term == engine.keyterm(engine.deref(st, args[1])))
-    return V(Key, [r])
+    rk = V(Key, [r])
+    st.assume(_uf("si_ind")(engine, st, [rk], node, {}).term == engine.keyterm(engine.deref(st, args[1])))
+    st.assume(_uf("si_size")(engine, st, [rk], node, {}).term == engine.num(args[2]))
+    pj = args[3]
+    isnone = _uf("si_noproject", Ty.BoolS)(engine, st, [rk], node, {}).term
+    if isinstance(pj, V) and isinstance(pj.t, Ty._None):
+        st.assume(isnone)
+    else:
+        st.assume(z3.Not(isnone))
+        st.assume(_uf("si_project")(engine, st, [rk], node, {}).term == engine.num(pj))
+    return rk
+
+
+def x_size_attr(engine, st, args, node, kw):
+    return V(Int, [_uf("si_size")(engine, st, [args[0]], node, {}).term])
+
+
+def x_project_attr(engine, st, args, node, kw):
+    rk = args[0]
+    isnone = _uf("si_noproject", Ty.BoolS)(engine, st, [rk], node, {}).term
+    return V(Ty.Opt(Int), [isnone, _uf("si_project")(engine, st, [rk], node, {}).term])
 
 
 def x_ind_attr(engine, st, args, node, kw):
@@ -138,7 +157,7 @@ def x_remove_leaf(engine, st, args, node, kw):
 EXT = {
     "len": x_len, "ContractionTree.contract_stats": x_none, "ContractionTree.get_involved": _cached("involved"),
     "ContractionTree.get_legs": _cached("legs"), "ContractionTree.get_flops": _cached("flops"), "ContractionTree.get_size": _cached("size"),
-    "SliceInfo": x_sliceinfo, "*.attr:ind": x_ind_attr, "sorted": x_sorted, "node_get_single_el": _uf("single_el"),
+    "SliceInfo": x_sliceinfo, "*.attr:ind": x_ind_attr, "*.attr:size": x_size_attr, "*.attr:project": x_project_attr, "sorted": x_sorted, "node_get_single_el": _uf("single_el"),
     "ContractionTree._remove_node": x_remove_leaf, "is_leaf": _uf("is_leaf", Ty.BoolS), "parent_of": _uf("parent_of"), "has_parent": _uf("has_parent", Ty.BoolS),
 }
 POPULATED = ("forall(keys(self.info), lambda n: implies(not is_leaf(n), 'involved' in self.info[n] and 'legs' in self.info[n]"
@@ -206,11 +225,13 @@ L6 = PH1 + [
 remove_ind = Contract(
     target="cotengra.core:ContractionTree.remove_ind",
     variant="inplace",
-    props=["C02", "C03", "C04"],
+    props=["C02", "C03", "C04", "C06"],
     self_type=TreeT,
     params={"ind": Key, "project": Ty.NoneT, "inplace": Ty.Bool},
     requires=[
         "inplace", "not (ind in self.sliced_inds)", "ind in self.size_dict and self.size_dict[ind] >= 1",
+        # the record stored for a sliced index is that index's record
+        "forall(keys(self.sliced_inds), lambda k: self.sliced_inds[k].ind == k)",
         POPULATED, SIZES_WF,
         "forall(keys(self.children), lambda n: n in self.info and not is_leaf(n))",
         "forall(keys(self.info), lambda n: implies(is_leaf(n), 0 <= single_el(n) and single_el(n) < len(self.inputs)))",
@@ -235,6 +256,8 @@ remove_ind = Contract(
     ensures=[
         "self.multiplicity == old(self.multiplicity) * old(self.size_dict[ind])",
         "ind in self.sliced_inds",
+        # its record: sliced over its whole range (C06: that many slices)
+        "self.sliced_inds[ind].ind == ind and self.sliced_inds[ind].size == old(self.size_dict[ind]) and self.sliced_inds[ind].project is None",
         "keys(self.info) == old(keys(self.info))",
         # every node whose contraction involves the index: reduced index sets, divided figures, no recipe left
         "forall(keys(self.info), lambda n: implies(" + INVOLVES + ", " + NODE_EFFECT + " and " + NOREC5 + "))",
@@ -253,7 +276,20 @@ remove_ind = Contract(
                  " sorted() returns some arrangement of exactly its elements"],
 )
 remove_ind.expose = ("seen",)
-CONTRACTS = [remove_ind]
+
+# projecting an index onto one value: same per-node effect, but a single slice
+_ens_proj = list(remove_ind.ensures)
+_ens_proj[0] = "self.multiplicity == old(self.multiplicity)"
+_ens_proj[2] = "self.sliced_inds[ind].ind == ind and self.sliced_inds[ind].size == 1 and self.sliced_inds[ind].project is not None and unopt(self.sliced_inds[ind].project) == project"
+remove_ind_project = Contract(
+    target=remove_ind.target, variant="inplace-project", props=["C02", "C04", "C06"], self_type=TreeT,
+    params={"ind": Key, "project": Ty.Int, "inplace": Ty.Bool},
+    requires=list(remove_ind.requires), returns=TreeT, externals=dict(remove_ind.externals), modifies=["self"], nloops=None,
+    loops=remove_ind.loops, hints=dict(remove_ind.hints), ensures=_ens_proj, ensures_t1=list(remove_ind.ensures_t1),
+    assumptions=["inplace=True, project=<int>; otherwise as the slicing variant"],
+)
+remove_ind_project.expose = ("seen",)
+CONTRACTS = [remove_ind, remove_ind_project]
 
 
 def _gen(rng):
@@ -301,7 +337,21 @@ def _gen(rng):
 
 
 remove_ind.gen = _gen
-remove_ind.ensures_rt = [
+
+
+def _gen_project(rng):
+    case = _gen(rng)
+    if case is None:
+        return None
+    ind = case["args"][0]
+    d = case["self"].size_dict[ind]
+    case["args"] = (ind, rng.randrange(d), True)
+    case["describe"] = case["describe"].replace(" remove ", " project ") + f" onto {case['args'][1]}"
+    return case
+
+
+remove_ind_project.gen = _gen_project
+remove_ind_project.ensures_rt = remove_ind.ensures_rt = [
     # every ancestor of a node whose contraction involves the index has lost the recipes that depend on its children's index order
     "all(k not in self.info[a] for n in self.info if (not is_leaf(n) and ind in old(self.info)[n]['involved']) for a in ancestors(n) for k in ('einsum_eq', 'can_dot', 'tensordot_axes', 'tensordot_perm'))",
 ]
